@@ -3,6 +3,7 @@
    Print Assumptions.  GENERATED skeleton (tools/mkprops.py), statements are the ones Coq prints for the lemmas. *)
 From Coq Require Import ZArith Reals List Bool String.
 From VQ Require Import Num Model.Vec Model.Core Model.Scalar Proofs.FiniteProofs Proofs.CoreEMA Proofs.ScalarProofs Glue.CoreGlue Glue.Pin_p_clamps.
+From VQ Require Import Glue.Pin_fp_C18.
 Import ListNotations.
 Open Scope R_scope.
 
@@ -121,3 +122,8 @@ Theorem C18_tie_clamps :
   p_clamps.p_clamps = pinned_p_clamps.
 Proof. exact (@pin_p_clamps). Qed.
 Print Assumptions C18_tie_clamps.
+
+Theorem C18_tie_source_footprint :
+  fp_C18.fp_C18 = pinned_fp_C18.
+Proof. exact (@Pin_fp_C18.pin_fp_C18). Qed.
+Print Assumptions C18_tie_source_footprint.
